@@ -39,6 +39,9 @@ RULE = ('session: 300 (quick) / 3500 (thorough) histories of 5..60 (quick) / 5..
         'get_one / contains / count / get_all. exhaustive: every call sequence prefix + c1 + c2 (+ c3 thorough) + '
         'observer over 2 URLs (levels 0 and 1), 13 state-changing calls (incl. reopen), 5-6 observers, 3 (quick) / '
         '5 (thorough) prefix states: 2535 (quick) / ~29k (thorough) histories, each on a fresh table object. '
+        'bigbatch: one add_many of 1, 499..503, 1000..1003, 1500+ (thorough up to 2506) entries, plain / with '
+        'properties (3 strings per entry: 166..168, 333..336) / mixed / with internal duplicates, then count, get_one '
+        'at chunk-boundary positions, check_out, a second overlapping batch, count, get_hostnames. '
         'non-trivial = the history changes the table at least once; distinct by canonical history + variant')
 TRUSTED = ['SQLite / SQLAlchemy 2 / sqlite3 binding: transaction atomicity, UNIQUE / NOT NULL with OR IGNORE, rowid '
            'assignment max+1, scan order by rowid (mirrored in the model, sampled by the correspondence run)',
@@ -751,6 +754,44 @@ def gen_session(rng, maxlen):
     return {'variant': variant, 'wrapped': rng.random() < 0.5, 'ops': ops}
 
 
+# ------------------------------------------------------------------ large batches (size boundaries)
+BIG_SIZES_QUICK = [(1, 'plain'), (499, 'plain'), (500, 'plain'), (501, 'plain'), (502, 'dups'), (1000, 'plain'),
+                   (1001, 'mixed'), (1003, 'dups'), (1503, 'plain'), (167, 'props'), (168, 'props'), (335, 'props'),
+                   (260, 'mixed')]
+BIG_SIZES_THOROUGH = BIG_SIZES_QUICK + [(n, st) for n in (2, 250, 499, 500, 501, 503, 999, 1000, 1001, 1002, 1500,
+                                                           1502, 1504, 2004, 2506)
+                                        for st in ('plain', 'mixed', 'dups')] + \
+    [(n, 'props') for n in (166, 167, 169, 333, 334, 336, 500, 501, 668, 1002)]
+
+
+def gen_big(rng, n, style):
+    """One add_many with n entries (callers batch 1000 at a time; any chunking inside the table code has
+    its own boundaries: every URL / parent / root string of the flattened batch must arrive), then
+    count / get_one at chunk-boundary positions / check_out / a second overlapping batch."""
+    tag = rng.randrange(10 ** 6)
+    urls = ['http://h%d.example/%d/p%d' % (i % 5, tag, i) for i in range(n)]
+    batch = []
+    for i, u in enumerate(urls):
+        if style == 'dups' and i > 3 and rng.random() < 0.1:
+            u = urls[rng.randrange(i)]
+        if style == 'props' or (style == 'mixed' and rng.random() < 0.5):
+            props = {'parent_url': 'http://par.example/%d/%d' % (tag, i) if rng.random() < 0.7 else urls[0],
+                     'root_url': 'http://root.example/%d/%d' % (tag, i) if rng.random() < 0.5 else urls[0],
+                     'level': rng.choice([0, 1, 1, 2])}
+        else:
+            props = None
+        batch.append({'url': u, 'props': props, 'data': None})
+    ops = [['A', batch], ['C']]
+    marks = [i for i in (0, 166, 167, 499, 500, 501, 1000, 1001, 1002, 1502, 1503, n - 1) if 0 <= i < n]
+    for i in rng.sample(marks, min(3, len(marks))):
+        ops.append(['1', urls[i]])
+    ops.append(['O', 'todo', None])
+    half = batch[n // 2:] + [{'url': 'http://new.example/%d/%d' % (tag, i), 'props': None, 'data': None}
+                             for i in range(rng.choice([1, 3, 501]) if n > 400 else 2)]
+    ops += [['A', half], ['C'], ['H']]
+    return {'variant': rng.choice(['memory', 'memory', 'disk']), 'wrapped': rng.random() < 0.3, 'ops': ops}
+
+
 # ------------------------------------------------------------------ exhaustive short histories
 XA, XB = 'http://a/', 'http://b/x'
 
@@ -970,6 +1011,10 @@ def run(ctx):
     ctx.sample({'stream': 'session', 'variant': cases[0]['variant'], 'wrapped': cases[0]['wrapped'],
                 'ops': cases[0]['ops'][:6]})
     run_cases(ctx, cases, spec_share=0.2)
+    brng = ctx.subrng('big')
+    big = [gen_big(brng, n, st) for n, st in (BIG_SIZES_QUICK if ctx.tier == 'quick' else BIG_SIZES_THOROUGH)]
+    ctx.note('large_batches', len(big))
+    run_cases(ctx, big, stream='bigbatch')
     ex = exhaustive_cases(ctx.tier == 'thorough')
     ctx.note('exhaustive_short_histories', len(ex))
     run_cases(ctx, ex, stream='exhaustive')
